@@ -115,6 +115,13 @@ func (c *vxChain) TransactionsByBlockNumber(n uint64) ([]core.Transaction, error
 	return out, nil
 }
 
+func (c *vxChain) TransactionByBlockNumberAndIndex(n, idx uint64) (core.Transaction, error) {
+	if n >= uint64(len(c.blocks)) || idx >= c.blocks[n].txCount {
+		return nil, db.ErrKeyNotFound
+	}
+	return &core.InvokeTransaction{TransactionHash: felt.NewFromUint64[felt.Felt](100 + idx), Version: new(core.TransactionVersion).SetUint64(1)}, nil
+}
+
 func (c *vxChain) BlockCommitmentsByNumber(n uint64) (*core.BlockCommitments, error) {
 	if n >= uint64(len(c.blocks)) {
 		return nil, db.ErrKeyNotFound
